@@ -10,6 +10,9 @@ Correspondence: every DirectoryRecord / PathTableRecord of the mastered object: 
 """
 import io
 
+import os
+import shutil
+import tempfile
 from harness import core, histcheck, isoapi
 from harness.props import c01, c04
 
@@ -115,11 +118,53 @@ def post(ctx, c, rep):
         ctx.traces_validated += len(reqs)
 
 
+def probe_relocation_name(ctx):
+    """a user-chosen relocation directory (set_relocated_name): directory records and BOTH path tables must carry that
+    identifier (the independent reader matches path table records with the hierarchy)"""
+    import io
+    import pycdlib
+    tmpdir = tempfile.mkdtemp(prefix='verif-c03p-')
+    try:
+        for name, rrname, dup in (('MOVED', 'moved', 0), ('XX_MOVED', 'm' * 40, 1), ('A', 'a', 2)):
+            rp = {'kind': 'probe-relocation-name', 'name': name}
+            with isoapi.frozen_time():
+                iso = pycdlib.PyCdlib()
+                iso.new(interchange_level=3, rock_ridge='1.09')
+                try:
+                    iso.set_relocated_name(name, rrname)
+                    for _ in range(dup):
+                        iso.duplicate_pvd()
+                    p = ''
+                    for i in range(8):
+                        p += '/DIR%d' % i
+                        iso.add_directory(p, rr_name='dir%d' % i)
+                    iso.add_fp(io.BytesIO(b'deep'), 4, p + '/F.;1', rr_name='f')
+                    path = os.path.join(tmpdir, 'n.iso')
+                    iso.write(path)
+                except Exception as e:  # noqa
+                    ctx.violation('C03.relocation-name/%s' % isoapi.exc_class(e), 'set_relocated_name(%r) + depth 8: %r' % (name, e), rp)
+                    continue
+                finally:
+                    iso.close()
+            rep = isoapi.read_image(ctx, path)
+            ctx.count(key=('relocation-name', name), nontrivial=True, kind='probe:relocation-name')
+            for e in rep.errs:
+                code = e.split(':')[0]
+                if histcheck.owns(code, histcheck.ECMA_CODES):
+                    ctx.violation('C03.relocation-name/%s' % code, 'relocation directory named %s: %s' % (name, e[:160]), rp)
+    finally:
+        shutil.rmtree(tmpdir, ignore_errors=True)
+
+
 def run(ctx):
+    probe_relocation_name(ctx)
     c01.run(ctx, focus='C03', post=post, n_quick=150, n_thorough=4000, force={'duppvd': True})
     # the same for images that were opened and edited again (several descriptor copies, moved root, parsed tables)
     c01.run(ctx, focus='C03', post=post, n_quick=60, n_thorough=1500, force={'duppvd': True}, reopen_every=6)
 
 
 def replay(ctx, obj):
+    if obj.get('replay', obj).get('kind') == 'probe-relocation-name':
+        probe_relocation_name(ctx)
+        return [v['signature'] for v in ctx.violations]
     return c01.replay(ctx, obj, focus='C03', post=post)
